@@ -1,1 +1,287 @@
-// harnesses (h_pipeline)
+// Harnesses living inside `mod pipeline`: they see Pipeline's private fields
+// and setup_communicate.
+#[cfg(kani)]
+mod vh_pipeline {
+    use super::*;
+    use crate::mk;
+    use crate::mk::proc_ as mp;
+    use crate::mk::Obj;
+    use crate::os_common::StandardStream;
+    use crate::popen::PopenError;
+    use std::os::unix::io::FromRawFd;
+
+    pub fn gss(which: StandardStream) -> io::Result<Rc<File>> {
+        crate::posix::make_standard_stream(which)
+    }
+
+    /// the wait-status truth (same as in vh_popen)
+    pub fn truth(w: i32) -> ExitStatus {
+        if w & 0x7f == 0 {
+            ExitStatus::Exited(((w >> 8) & 0xff) as u32)
+        } else {
+            ExitStatus::Signaled((w & 0x7f) as u8)
+        }
+    }
+
+    pub struct Plan {
+        pub n: usize,
+        pub in_pipe: bool,
+        pub out_pipe: bool,
+        pub stderr_shared: bool,
+        pub capture: bool,
+    }
+
+    pub unsafe fn build(pl: &Plan) -> Pipeline {
+        let a = Exec::cmd("/a");
+        let b = Exec::cmd("/b");
+        let mut p = if pl.n == 2 { a | b } else { a | b | Exec::cmd("/c") };
+        if pl.in_pipe {
+            p = p.stdin(Redirection::Pipe);
+        }
+        if pl.out_pipe && !pl.capture {
+            p = p.stdout(Redirection::Pipe);
+        }
+        if pl.stderr_shared && !pl.capture {
+            mk::open_file_at(3, 7, true);
+            p = p.stderr_to(File::from_raw_fd(3));
+        }
+        p
+    }
+
+    /// expected fds 0,1,2 of stage j (0-based) from the plan alone
+    pub unsafe fn expect_stage(pl: &Plan, j: usize, base: u8) {
+        let mut p = base;
+        let mut err_pipe = 0;
+        if pl.capture {
+            err_pipe = p;
+            p += 1;
+        }
+        let mut inpipe = 0;
+        let mut outpipe: [Option<u8>; 3] = [None; 3];
+        let mut idx = 0;
+        while idx < 3 {
+            if idx < pl.n {
+                p += 1; // status pipe of this stage
+                if idx == 0 && pl.in_pipe {
+                    inpipe = p;
+                    p += 1;
+                }
+                if idx != pl.n - 1 || pl.out_pipe || pl.capture {
+                    outpipe[idx] = Some(p);
+                    p += 1;
+                }
+            }
+            idx += 1;
+        }
+        let fd0 = if j == 0 {
+            if pl.in_pipe {
+                Obj::PipeR(inpipe)
+            } else {
+                Obj::Std(0)
+            }
+        } else {
+            match outpipe[j - 1] {
+                Some(q) => Obj::PipeR(q),
+                None => Obj::Closed,
+            }
+        };
+        let fd1 = match outpipe[j] {
+            Some(q) => Obj::PipeW(q),
+            None => Obj::Std(1),
+        };
+        let fd2 = if pl.capture {
+            Obj::PipeW(err_pipe)
+        } else if pl.stderr_shared {
+            Obj::File(7)
+        } else {
+            Obj::Std(2)
+        };
+        mp::EXPECT_FD = [fd0, fd1, fd2];
+        mp::EXPECT_FD_SET = true;
+    }
+
+    pub fn any_plan(capture: bool) -> Plan {
+        let n: usize = if kani::any() { 2 } else { 3 };
+        Plan { n, in_pipe: kani::any(), out_pipe: kani::any(), stderr_shared: kani::any(), capture }
+    }
+
+    /// Child role at a symbolic stage j of `popen()`: wiring (C13), nothing else of the
+    /// pipeline visible (C08/C13), clean signal state (C18).
+    #[kani::proof]
+    #[kani::stub(crate::popen::get_standard_stream, gss)]
+    #[kani::stub(std::env::var_os, crate::posix::vh_posix::var_os_model)]
+    #[kani::stub(crate::posix::fcntl, crate::mk::fcntl_model)]
+    fn h_pipe_child() {
+        mk::link_model();
+        unsafe {
+            mk::reset();
+            mk::init_std_fds();
+            mk::sig::MASK = kani::any();
+            let pl = any_plan(false);
+            let j: usize = kani::any();
+            kani::assume(j < pl.n);
+            mp::AUTO_STATUS = true;
+            mp::CHILD_AT_FORK = (j + 1) as u32;
+            expect_stage(&pl, j, 0);
+            let p = build(&pl);
+            let r = p.popen();
+            vcheck!(C13, false, "C13/stage-started: a stage of a valid pipeline was not started (the child role did not reach exec)");
+            std::mem::forget(r);
+        }
+    }
+
+    /// Child role at stage j when the pipeline is run through capture()/communicate():
+    /// the terminator's own stderr pipe is created first.
+    #[kani::proof]
+    #[kani::stub(crate::popen::get_standard_stream, gss)]
+    #[kani::stub(std::env::var_os, crate::posix::vh_posix::var_os_model)]
+    #[kani::stub(crate::posix::fcntl, crate::mk::fcntl_model)]
+    fn h_pipe_capture_child() {
+        mk::link_model();
+        unsafe {
+            mk::reset();
+            mk::init_std_fds();
+            let pl = any_plan(true);
+            let j: usize = kani::any();
+            kani::assume(j < pl.n);
+            mp::AUTO_STATUS = true;
+            mp::SKIP_PIPES = 1;
+            mp::CHILD_AT_FORK = (j + 1) as u32;
+            expect_stage(&pl, j, 0);
+            let p = build(&pl);
+            let r = p.setup_communicate();
+            vcheck!(C13, false, "C13/stage-started: a stage of a valid pipeline was not started (the child role did not reach exec)");
+            std::mem::forget(r);
+        }
+    }
+
+    /// deadlock oracle for blocking waits: the parent must not wait for child c
+    /// while holding the write end of a pipe c reads (c may be waiting for
+    /// end-of-file) or the read end of a pipe c writes (c may be blocked on a full pipe)
+    pub unsafe fn blocking_wait_oracle(k: usize) {
+        let mine = mp::mask_of_open_pipe_ends();
+        let his = mp::KIDS[k].holds;
+        let his_read = his & 0xff;
+        let his_write = (his >> 8) & 0xff;
+        let my_read = mine & 0xff;
+        let my_write = (mine >> 8) & 0xff;
+        // the status pipe is not a data pipe: the child's copy is close-on-exec
+        let sp = mp::KIDS[k].status_pipe;
+        let spm: u16 = if sp < 8 { !(1u16 << sp) } else { 0xffff };
+        vcheck!(C14, (his_read & my_write & spm) == 0, "C14/no-wait-holding-childs-stdin: the parent waits for a started stage while still holding the write end of that stage's stdin pipe (the stage waits for end-of-file: hang)");
+        vcheck!(C12, (his_read & my_write & spm) == 0, "C12/no-wait-holding-childs-stdin: a handle waits for its child while still holding the write end of the child's stdin pipe");
+        vcheck!(C12, (his_write & my_read & spm) == 0, "C12/no-wait-holding-childs-output: a handle waits for its child while still holding the read end of a pipe the child writes to (a child blocked on a full pipe is never released)");
+    }
+
+    /// Parent role: join() returns the last stage's status after every stage has been reaped.
+    #[kani::proof]
+    #[kani::stub(crate::popen::get_standard_stream, gss)]
+    #[kani::stub(std::env::var_os, crate::posix::vh_posix::var_os_model)]
+    #[kani::stub(crate::posix::fcntl, crate::mk::fcntl_model)]
+    fn h_pipe_join() {
+        mk::link_model();
+        unsafe {
+            mk::reset();
+            mk::init_std_fds();
+            let pl = Plan { n: if kani::any() { 2 } else { 3 }, in_pipe: false, out_pipe: false, stderr_shared: kani::any(), capture: false };
+            mp::AUTO_STATUS = true;
+            let c0: u8 = kani::any();
+            let c1: u8 = kani::any();
+            let c2: u8 = kani::any();
+            mp::KID_STATUS = [(c0 as i32) << 8, (c1 as i32) << 8, if kani::any() { (c2 as i32) << 8 } else { 9 }];
+            mp::AT_BLOCKING_WAIT = Some(blocking_wait_oracle);
+            let p = build(&pl);
+            let r = p.join();
+            match r {
+                Ok(s) => {
+                    kani::cover!(true, "COVER/join-ok");
+                    vcheck!(C13, s == truth(mp::KID_STATUS[pl.n - 1]), "C13/last-stage-status: join() does not return the last command's exit status");
+                    let mut i = 0;
+                    while i < 3 {
+                        if i < pl.n {
+                            vcheck!(C13, mp::KIDS[i].st == mp::KidSt::Reaped, "C13/all-stages-reaped: join() returned before every command had been waited for");
+                            vcheck!(C12, mp::KIDS[i].st == mp::KidSt::Reaped, "C12/join-reaps-all: a stage was left unreaped after join()");
+                        }
+                        i += 1;
+                    }
+                    let mut f = 3;
+                    while f < mk::NFD {
+                        let e = mk::FDT[f];
+                        let is_pipe = match e.obj { Obj::PipeR(_) | Obj::PipeW(_) => true, _ => false };
+                        vcheck!(C13, !is_pipe, "C13/no-pipe-left: a pipeline pipe end is still open in the parent after join()");
+                        f += 1;
+                    }
+                }
+                Err(e) => {
+                    vcheck!(C13, false, "C13/join-succeeds: join() of a pipeline whose stages all started failed");
+                    std::mem::forget(e);
+                }
+            }
+        }
+    }
+
+    /// C14: stage k cannot be started (its child reports errno e); terminator popen() / join().
+    pub unsafe fn pipe_fail_case(use_join: bool) {
+        mk::reset();
+        mk::init_std_fds();
+        let pl = Plan { n: if kani::any() { 2 } else { 3 }, in_pipe: kani::any(), out_pipe: kani::any(), stderr_shared: false, capture: false };
+        let k: usize = kani::any();
+        kani::assume(k < pl.n);
+        let e: i32 = 2;
+        mp::AUTO_STATUS = true;
+        mp::KID_LAUNCH_ERRNO = [0; mp::NKID];
+        mp::KID_LAUNCH_ERRNO[k] = e;
+        mp::AT_BLOCKING_WAIT = Some(blocking_wait_oracle);
+        let p = build(&pl);
+        let failed = if use_join {
+            let r = p.join();
+            let f = match &r {
+                Err(PopenError::IoError(ioe)) => ioe.raw_os_error() == Some(e),
+                _ => false,
+            };
+            std::mem::forget(r);
+            f
+        } else {
+            let r = p.popen();
+            let f = match &r {
+                Err(PopenError::IoError(ioe)) => ioe.raw_os_error() == Some(e),
+                _ => false,
+            };
+            std::mem::forget(r);
+            f
+        };
+        kani::cover!(k == 1 && pl.in_pipe, "COVER/second-stage-fails-with-piped-stdin");
+        vcheck!(C14, failed, "C14/returns-that-error: starting the pipeline did not return the error of the command that could not be started");
+        vcheck!(C14, mp::FORKS as usize == k + 1, "C14/no-later-command-started: a command after the failing one was started");
+        let mut i = 0;
+        while i < 3 {
+            if i <= k {
+                vcheck!(C14, mp::KIDS[i].st == mp::KidSt::Reaped, "C14/started-stages-reaped: a command already started was not waited for (zombie / orphan of the attempt)");
+            }
+            i += 1;
+        }
+        let mut f = 3;
+        while f < mk::NFD {
+            vcheck!(C14, mk::FDT[f].obj == Obj::Closed, "C14/no-descriptor-left: a descriptor opened by the failed pipeline start is still open in the parent");
+            f += 1;
+        }
+    }
+
+    #[kani::proof]
+    #[kani::stub(crate::popen::get_standard_stream, gss)]
+    #[kani::stub(std::env::var_os, crate::posix::vh_posix::var_os_model)]
+    #[kani::stub(crate::posix::fcntl, crate::mk::fcntl_model)]
+    fn h_pipe_fail_popen() {
+        mk::link_model();
+        unsafe { pipe_fail_case(false) }
+    }
+
+    #[kani::proof]
+    #[kani::stub(crate::popen::get_standard_stream, gss)]
+    #[kani::stub(std::env::var_os, crate::posix::vh_posix::var_os_model)]
+    #[kani::stub(crate::posix::fcntl, crate::mk::fcntl_model)]
+    fn h_pipe_fail_join() {
+        mk::link_model();
+        unsafe { pipe_fail_case(true) }
+    }
+}
